@@ -298,3 +298,23 @@ M("c10-vam-first", "C10", "flexstack/facilities/vru_awareness_service/vam_transm
   "        if self.last_vam_generation_delta_time is None:\n            self.send_next_vam(vam=vam_to_send)\n            return", "        if self.last_vam_generation_delta_time is None:\n            self.last_vam_generation_delta_time = GenerationDeltaTime(msec=vam_to_send.vam['vam']['generationDeltaTime'])\n            return", "no VAM at the first report after activation")
 M("c10-speed-thr", "C10", "flexstack/facilities/ca_basic_service/cam_transmission_management.py",
   "            if abs(tpv[\"speed\"] - self._last_cam_speed) > 0.5:", "            if abs(tpv[\"speed\"] - self._last_cam_speed) > 5:", "speed trigger at 5 m/s")
+
+# ---------------------------------------------------------------- C11
+M("c11-speed-clamp", "C11", "flexstack/facilities/ca_basic_service/cam_transmission_management.py",
+  "            if int(tpv[\"speed\"] * 100) > 16381:", "            if int(tpv[\"speed\"] * 100) > 26381:", "CAM speed clamp raised beyond the field range")
+M("c11-lat-scale", "C11", "flexstack/facilities/vru_awareness_service/vam_transmission_management.py",
+  "            ] = int(tpv[\"lat\"] * 10000000)", "            ] = int(tpv[\"lat\"] * 1000000) * 10", "VAM latitude truncated to microdegrees")
+M("c11-semi-axis-revert", "C11", "flexstack/facilities/ca_basic_service/cam_transmission_management.py",
+  "            return min(int(metres * 100), 4094)", "            return int(metres * 100)", "revert: semi-axis length not clamped")
+M("c11-alt-conf", "C11", "flexstack/facilities/ca_basic_service/cam_transmission_management.py",
+  "            0.5: \"alt-000-50\",", "            0.5: \"alt-001-00\",", "altitude confidence class 0.5 m mapped to 1 m")
+M("c11-heading-unit", "C11", "flexstack/facilities/ca_basic_service/cam_transmission_management.py",
+  "            ] = int(tpv[\"track\"] * 10)", "            ] = int(tpv[\"track\"])", "CAM heading in degrees instead of 0.1 degree")
+M("c11-gdt", "C11", "flexstack/facilities/ca_basic_service/cam_transmission_management.py",
+  "        if transformed_timestamp <= utc_timestamp_in_millis:\n            return transformed_timestamp", "        if transformed_timestamp < utc_timestamp_in_millis - 1000:\n            return transformed_timestamp", "generation time reconstruction off by a cycle for fresh messages")
+M("c11-cluster-revert", "C11", "flexstack/facilities/vru_awareness_service/vru_clustering.py",
+  "                \"clusterBoundingBoxShape\": (\n                    \"circular\",\n                    {\"radius\": max(1, int(self._cluster.radius))},\n                ),", "                \"clusterBoundingBoxShape\": {\"circular\": {\"radius\": max(1, int(self._cluster.radius))}},", "revert: bounding box as dict")
+M("c11-denm-area", "C11", "flexstack/facilities/decentralized_environmental_notification_service/denm_transmission_management.py",
+  "                longitude=denm_to_send.denm[\"denm\"][\"management\"][\n                    \"eventPosition\"\n                ][\"longitude\"],", "                longitude=denm_to_send.denm[\"denm\"][\"management\"][\n                    \"eventPosition\"\n                ][\"latitude\"],", "DENM area longitude taken from the latitude")
+M("c11-role-revert", "C11", "flexstack/facilities/ca_basic_service/cam_transmission_management.py",
+  "    \"taxi\", \"uvar\", \"rfu1\", \"rfu2\",", "    \"taxi\", \"reserved1\", \"rfu1\", \"rfu2\",", "revert: role 13 name not in the enumeration")
